@@ -12,13 +12,15 @@
 (* DECLARATIVE: Denote(sp) is the value of the whole expression (unary     *)
 (* minus binds tightest).                                                  *)
 (*                                                                         *)
-(* OPERATIONAL: parse_number_or_expr (common/parse/mod.rs:324-367) as the  *)
-(* code does it, on the REAL cursor:                                       *)
-(*   SpecLiteral : if the next token is `-` consume it; parse a literal;   *)
-(*                 render "-"? + text, parse as T                          *)
-(*   FallbackExpr: on any failure parse an expression FROM THE CURRENT     *)
-(*                 CURSOR (the `-` and/or the literal stay consumed)       *)
-(* then the caller expects `,` or the end of the block.                    *)
+(* OPERATIONAL: parse_number_or_expr (common/parse/mod.rs) as the code     *)
+(* does it:                                                                *)
+(*   SpecLiteral : on a FORK: optional `-`, a literal, text parsed as T;   *)
+(*                 committed only if `,` or the end follows                *)
+(*   FallbackExpr: otherwise the whole bound is parsed as an expression    *)
+(*                 from the untouched cursor                               *)
+(* (Before fix 7c2a816 the first step ran on the real cursor: the `-` and  *)
+(* a literal that did not fit the type stayed consumed, so `-K` was        *)
+(* enforced as `K` and `200 - 100` on i8 as `-100`.)                       *)
 (***************************************************************************)
 EXTENDS Integers, Sequences, FiniteSets, TLC
 
@@ -53,19 +55,22 @@ LitParses(sp, a) ==
     [] OTHER          -> FALSE
 IsLitTok(a) == a.k \in {"lit", "hexlit", "suflit", "fltlit"}
 
-\* OPERATIONAL.  Result: [st, v] with st = "value" (literal), "expr" (parsed as expression), "reject"
+\* does rustc accept the whole spelling as an expression of type T?  (a literal that does not fit the
+\* type is a deny-by-default lint error; a float literal is a type error for an integer type; `255 & M`
+\* on i8 likewise)
+ExprTypechecks(sp) ==
+  /\ (sp.a1.k = "lit" => Fits(sp.ty, IF sp.neg /\ sp.op = "" THEN -sp.a1.v ELSE sp.a1.v))
+  /\ (sp.a1.k = "fltlit" => sp.ty = "f64")
+  /\ (sp.a1.k = "hexlit" => Fits(sp.ty, sp.a1.v))
+  /\ (sp.op # "" /\ sp.a2.k = "lit" => Fits(sp.ty, sp.a2.v))
+
+\* OPERATIONAL (after fix 7c2a816).  Result: [st, v] with st = "value" (literal), "expr", "reject".
+\* The literal is tried on a FORK and committed only when the bound ends right after it; otherwise the
+\* whole spelling is parsed as an expression from the untouched cursor.
 OpParse(sp) ==
-  IF IsLitTok(sp.a1)
-  THEN IF LitParses(sp, sp.a1)
-       THEN \* literal consumed and converted; anything left before `,` is a syntax error
-            (IF sp.op = "" THEN [st |-> "value", v |-> IF sp.neg THEN -sp.a1.v ELSE sp.a1.v] ELSE [st |-> "reject", v |-> 0])
-       ELSE \* conversion failed: the `-` and the literal are consumed; an expression is parsed from what is left
-            (IF sp.op = "" THEN [st |-> "reject", v |-> 0]                       \* nothing left: "expected expression"
-             ELSE IF sp.op = "-" THEN [st |-> "expr", v |-> -sp.a2.v]              \* `- 100` is a complete expression
-             ELSE IF sp.op = "&" THEN [st |-> "reject", v |-> 0]                   \* `& M` is a reference: type error in the comparison
-             ELSE [st |-> "reject", v |-> 0])                                      \* `* K`, `<< 3`, `+ 1`: not an expression / deref error
-  ELSE \* no literal follows: Lit parse fails, but a leading `-` is ALREADY consumed
-       [st |-> "expr", v |-> IF sp.op = "" THEN sp.a1.v ELSE Apply(sp.op, sp.a1.v, sp.a2.v)]
+  IF IsLitTok(sp.a1) /\ LitParses(sp, sp.a1) /\ sp.op = ""
+  THEN [st |-> "value", v |-> IF sp.neg THEN -sp.a1.v ELSE sp.a1.v]
+  ELSE IF ExprTypechecks(sp) THEN [st |-> "expr", v |-> Denote(sp)] ELSE [st |-> "reject", v |-> 0]
 
 Accepted(sp) == OpParse(sp).st # "reject"
 
